@@ -3,6 +3,7 @@ package rules
 import (
 	"go/ast"
 	"go/types"
+	"golang.org/x/tools/go/packages"
 	"golang.org/x/tools/go/ssa"
 	"sort"
 	"strings"
@@ -13,7 +14,7 @@ import (
 func init() {
 	Register("C07", "Decides structural necessary conditions of allOf inheritance: (eq) equality methods of constraints read every field that carries meaning - violated by AdditionalProperties.IsEqual, known finding; (copy) inherited children are deep copies marked with the source type; (req) required keys of the source are propagated; (cycle) the compile recursion is guarded by test-insert-recurse-delete; (refuse) each documented refusal is raised on its guard; (det) no map-order dependence in the allOf compiler. Does NOT decide the merged key set for arbitrary inheritance DAGs nor OpenAPI listing equality.",
 		c07eq, c07copy, c07share, c07oalist, c07index, addChildOrderRule("C07.addorder"), unnamedOnlyRule("C07.unnamedonly"), inheritAllRule("C07.inheritall"), oncePanicRule("C07.oncepanic"), presizeRule("C07.presize"), walkKindsRule("C07.walkkinds"), c07req, c07cycle, c07refuse, c07walk, func(c *core.Ctx) {
-			runMapRange(c, "C07.det", []string{"allOfConstraintCompiler", "CompileAllOf", "AddUnnamedTypes"}, 3)
+			runMapRange(c, "C07.det", []string{"notations/jschema/loader."}, 1)
 		})
 }
 
@@ -75,10 +76,22 @@ func c07copyAs(c *core.Ctx, R string) {
 		return
 	}
 	okCopy := false
-	for _, lp := range collLoops(d.Pkg, d.Decl.Body) {
+	type hLoop struct {
+		collLoop
+		pk *packages.Package
+	}
+	var loops []hLoop
+	for _, hd := range helperBodies(c, d, 2) {
+		for _, lp := range collLoops(hd.Pkg, hd.Decl.Body) {
+			loops = append(loops, hLoop{lp, hd.Pkg})
+		}
+	}
+	root := d
+	for _, lp := range loops {
 		if !strings.HasSuffix(lp.coll, ".Children()") {
 			continue
 		}
+		d := &core.DeclSite{Pkg: lp.pk, Decl: root.Decl}
 		// the element may first be put into a local: child := children[i]
 		elems := map[string]bool{lp.elem: true}
 		var copyVar types.Object
@@ -187,7 +200,7 @@ func c07req(c *core.Ctx) {
 		return
 	}
 	ok := false
-	ast.Inspect(d.Decl.Body, func(n ast.Node) bool {
+	inspectDeep(c, d, 2, func(_ *core.DeclSite, n ast.Node) bool {
 		rs, isR := n.(*ast.RangeStmt)
 		if !isR || !strings.HasSuffix(core.ExprStr(rs.X), ".Keys()") || !strings.Contains(core.ExprStr(rs.X), "RequiredKeys") {
 			return true
@@ -284,8 +297,32 @@ func c07refuse(c *core.Ctx) {
 	}
 	dup := false
 	ast.Inspect(k.Decl.Body, func(n ast.Node) bool {
-		if ifs, ok := n.(*ast.IfStmt); ok && strings.Contains(core.ExprStr(ifs.Cond), "isDuplicatedKey(") && strings.Contains(core.ExprStr0(ifs.Body), "ErrDuplicateKeysInSchema") {
+		ifs, ok := n.(*ast.IfStmt)
+		if !ok || !strings.Contains(core.ExprStr0(ifs.Body), "ErrDuplicateKeysInSchema") {
+			return true
+		}
+		// the guard looks the key up in the index: inline (`_, dup := k.index[ik]; dup`) or through a helper
+		guard := core.ExprStr(ifs.Cond)
+		if ifs.Init != nil {
+			guard += ";" + core.ExprStr0(ifs.Init)
+		}
+		if strings.Contains(guard, ".index[") {
 			dup = true
+		}
+		for _, e := range []ast.Node{ifs.Cond, ifs.Init} {
+			if e == nil {
+				continue
+			}
+			ast.Inspect(e, func(m ast.Node) bool {
+				if call, isC := m.(*ast.CallExpr); isC {
+					if f, isF := core.Callee(k.Pkg, call).(*types.Func); isF && f.Pkg() != nil && f.Pkg().Path() == k.Pkg.PkgPath {
+						if hd := c.P.FindDecl(core.Rel(f.FullName())); hd != nil && hd.Decl.Body != nil && strings.Contains(core.ExprStr0(hd.Decl.Body), ".index[") {
+							dup = true
+						}
+					}
+				}
+				return true
+			})
 		}
 		return true
 	})
